@@ -55,7 +55,9 @@ func (authStub) Authenticate(ctx context.Context, sources map[string][]string) (
 	return ctx, errors.New("sim: missing or wrong credentials")
 }
 
-type extHost struct{ ext map[component.ID]component.Component }
+type extHost struct {
+	ext map[component.ID]component.Component
+}
 
 func (h extHost) GetExtensions() map[component.ID]component.Component { return h.ext }
 
